@@ -3331,6 +3331,21 @@ pub mod verif {
             (a, b, c)
         }
 
+        /// `values_equal` as used by the Equal instruction.
+        pub fn verif_values_equal(&self, a: &Value, b: &Value) -> bool {
+            self.values_equal(a, b)
+        }
+
+        /// Mint a ref exactly as the `reference` builtin does.
+        pub fn verif_create_ref(&mut self) -> Value {
+            self.create_ref()
+        }
+
+        /// Position the ref counter (to reach the 2^48 boundary without 2^48 mints).
+        pub fn verif_set_next_ref(&mut self, next: u64) {
+            self.next_ref = next;
+        }
+
         pub fn verif_process_ids(&self) -> Vec<ProcessId> {
             let mut v: Vec<ProcessId> = self.processes.keys().copied().collect();
             v.sort_unstable();
